@@ -36,6 +36,8 @@ LEVEL_NOTE = ("Trusted: Lean kernel; rustc; harness (guard pages observe, do not
               "correspondence only.")
 
 BIGBUF = 4000
+# `dbg` = release-like build with debug assertions (harness/Cargo.toml): only the small stream `float-sign-dbg` runs there
+PROFILES = {"quick": ["release", "dbg"], "thorough": ["release", "dbg"]}
 
 
 def feature_sets(tier):
@@ -178,7 +180,29 @@ def short_lengths(rng, bound):
     return sorted(x for x in ls if x < bound)
 
 
+def dbg_streams(rng, fs):
+    """debug-assertion builds: signed values into a buffer of exactly buffer_size_const bytes.  The non-decimal writers
+    `debug_assert!(bytes.len() >= BUFFER_SIZE)` on the slice that remains AFTER the sign byte was written."""
+    ops = []
+    fmts = [(gens.pack(r), 94 if r >= 15 else 101) for r in gens.radices(fs)]
+    if "radix" in fs or "pow2" in fs:
+        fmts += [(gens.pack(r, b, 10), 112) for (r, b) in ((4, 2), (8, 2), (16, 2), (32, 2), (16, 4))]
+    for f, e in fmts:
+        for ty in ("f64", "f32"):
+            for x in (1.5, -1.5, 1.5e20, -1.5e20, 1.5e-20, -1.5e-20, 255.9375, -255.9375, -0.0):
+                b = fbits(ty, x)
+                if b is None:
+                    continue
+                ops.append("wf %s %x %x %s -" % (ty, f, b, gens.wopts(exp=e)))
+                o = gw.rand_opts(rng, radix=(f >> 104) & 255, punct=False)
+                o["exp"] = e
+                ops.append("wf %s %x %x %s -" % (ty, f, b, gw.opt_str(o)))
+    return [("float-sign-dbg", ops)]
+
+
 def streams(tier, rng, fs, profile):
+    if profile == "dbg":
+        return dbg_streams(rng, fs)
     quick = tier == "quick"
     out = []
     # (a) buffer_size_const
@@ -304,7 +328,7 @@ def post(ctx, bins):
     viol = []
     n = 0
     for (fs, profile, sname), (ops, impl, drv) in ctx["results"].items():
-        if not sname.startswith("float-exact") and sname != "float-short":
+        if (not sname.startswith("float-exact") and sname != "float-short") or profile != "release":
             continue
         cands = []
         for op in ops:
